@@ -153,11 +153,6 @@ theorem event_reducer_before_first_event {ω : Type} (crit : ω → Bool) (dt : 
     foldSeq (fun _ ob s => eventFold (XR.fin 0) XR.nonfin crit (XR.fin dt) ob s) o n = XR.nonfin := by
   rw [event_reducer, lastMatch_eq_none_iff.mpr h]; rfl
 
-/-- **Pass-through reducer** reproduces the observation. -/
-theorem passthrough_reducer {α : Type} (o : ℕ → α) (n : ℕ) :
-    foldSeq (fun _ ob s => passFold ob s) o n = o n := by
-  cases n <;> rfl
-
 /-- **Cumulative average** (`CAReducer.fold`, `_count = i+1` at the `i`-th observation since the
 last clear): the mean of all observations so far. -/
 theorem ca_reducer (o : ℕ → ℝ) (n : ℕ) :
@@ -452,3 +447,13 @@ theorem resize_after_clear_witness :
         [.setDur 4, .observe 9 false, .dump]).2 = [.unit, .unit, .hist [9, 7, 7, 7, 7]] := by decide
 
 end InfernoVerif.Reducer
+
+namespace InfernoVerif.Trace
+open InfernoVerif.Reducer (foldSeq passFold)
+
+/-- **Pass-through reducer** reproduces the observation.  (Axiom-free; kept last in the file.) -/
+theorem passthrough_reducer {α : Type} (o : ℕ → α) (n : ℕ) :
+    foldSeq (fun _ ob s => passFold ob s) o n = o n := by
+  cases n <;> rfl
+
+end InfernoVerif.Trace
